@@ -19,6 +19,9 @@ pub fn quiet_panics() {
             "<non-string panic payload>".to_string()
         };
         let loc = info.location().map(|l| format!(" at {}:{}", l.file(), l.line())).unwrap_or_default();
+        if std::env::var_os("VERIF_LOUD_PANICS").is_some() {
+            eprintln!("panic: {msg}{loc}"); // debugging aid for panics of the harness itself
+        }
         let _ = LAST_PANIC.try_with(|p| *p.borrow_mut() = Some(format!("{msg}{loc}")));
     }));
 }
